@@ -11,6 +11,7 @@ import collections
 import functools
 import inspect
 import sys
+import threading
 
 from pycel.excelutil import (
     AddressCell,
@@ -317,9 +318,32 @@ def refs_wrapper(f, name_space, param_indices=None):
 
     @functools.wraps(f)
     def wrapper(*args):
-        return f(*tuple(resolve_args(args)))
+        args = tuple(resolve_args(args))
+        if _C_ is None:
+            # not loaded for a formula (no evaluator to note)
+            return f(*args)
+        calling = _calling.__dict__.setdefault('name_spaces', [])
+        calling.append(name_space)
+        try:
+            return f(*args)
+        finally:
+            calling.pop()
 
     return wrapper
+
+
+_calling = threading.local()
+
+
+def calling_name_space(f):
+    """The name space of the formula which is calling f
+
+    The library functions (and their meta data) are shared by all of the
+    compilers and threads, so the name space noted in the meta data is that
+    of the formula which loaded the function last.
+    """
+    calling = getattr(_calling, 'name_spaces', None)
+    return calling[-1] if calling else getattr(f, FUNC_META)['name_space']
 
 
 def built_in_wrapper(f, wrapper_marker, name_space):
